@@ -434,14 +434,36 @@ def eq(v):
     return ('eq', v)
 
 
+# list-based fields (RFC 9110 5.3): a sender may spread the list over several field lines; the field value is the
+# lines joined, in order, by a comma (optional whitespace)
+LIST_FIELDS = frozenset(['if-match', 'if-none-match', 'accept', 'forwarded', 'x-forwarded-for'])
+
+
+def combine_headers(headers):
+    """[[name, value]...] -> ({lower name: combined value}, {lower name: [acceptable raw texts]} for split fields)."""
+    lines = {}
+    for name, value in headers:
+        lines.setdefault(name.lower(), []).append(value)
+    hdr, raw_alts = {}, {}
+    for n, vs in lines.items():
+        if len(vs) > 1:
+            if n not in LIST_FIELDS:
+                raise ValueError('generator error: singleton field %r on several lines' % n)
+            raw_alts[n] = [','.join(vs), ', '.join(vs)]
+        hdr[n] = ','.join(vs)
+    return hdr, raw_alts
+
+
 def expectations(case, stack):
     """case: {'scheme','server','client','root_path','path','query','headers': [[name, value]...]}.
 
     Returns ({accessor key: expectation}, set of branch-class labels).
     """
-    hdr = {}
-    for name, value in case['headers']:
-        hdr[name.lower()] = value
+    hdr, raw_alts = combine_headers(case['headers'])
+
+    def raw(name):
+        v = hdr.get(name)
+        return eq(v) if name not in raw_alts else ('in', raw_alts[name])
     scheme = case['scheme']
     if stack == 'asgi' and case.get('asgi_ws'):
         # WebSocket connection scope (falcon.asgi.Request as built for on_websocket / process_request_ws):
@@ -456,11 +478,17 @@ def expectations(case, stack):
         E[prop] = eq(None) if v is None else (eq(v) if v else FREE)
     ct = hdr.get('content-type')
     E['content_type'] = eq(ct)
-    def headers_ok(got, want=dict(hdr)):
-        # names: documented upper-case on WSGI, lower-case on ASGI; only case-insensitive equality is demanded
-        return isinstance(got, dict) and len(got) == len(want) and {k.lower(): v for k, v in got.items()} == want
+    def headers_ok(got, want=dict(hdr), lower_only=False):
+        # names: documented upper-case on WSGI, lower-case on ASGI; only case-insensitive equality is demanded.
+        # a list field sent on several lines may be joined with "," or ", "
+        if not isinstance(got, dict) or len(got) != len(want):
+            return False
+        g = {(k if lower_only else k.lower()): v for k, v in got.items()}
+        return set(g) == set(want) and all(g[k] in raw_alts.get(k, [want[k]]) for k in want)
     E['headers'] = ('pred', 'headers %r' % (hdr,), headers_ok)
-    E['headers_lower'] = eq(dict(hdr))
+    E['headers_lower'] = ('pred', 'lower-case headers %r' % (hdr,), lambda got: headers_ok(got, lower_only=True))
+    for n in raw_alts:
+        B.add('multiline.' + n)
     E['scheme'] = eq(scheme)
     E['root_path'] = eq(case['root_path'])
 
@@ -629,13 +657,33 @@ def expectations(case, stack):
         B.add('host.absent_no_server')
     else:
         sname, sport = server
-        E['host'] = ('hosti', [sname])
         E['port'] = eq(int(sport))
-        netloc = sname if int(sport) == default_port else '%s:%s' % (sname, sport)
-        E['netloc'] = eq(netloc)
-        labels = sname.split('.')
-        E['subdomain'] = eq(labels[0] if len(labels) > 1 else None) if all(_LDH.match(x) for x in labels) and \
-            not _is_ipv4(sname) else FREE
+        if _is_ipv6(sname):
+            # server bound to an IPv6 address.  RFC 3875 (CGI) puts the brackets into SERVER_NAME, common WSGI
+            # servers (and the ASGI 'server' pair) give the bare address.
+            if stack == 'wsgi' and case.get('wsgi_server_bracketed'):
+                lit = '[%s]' % sname
+                E['host'] = ('hosti', [sname, lit])
+                netloc = lit if int(sport) == default_port else '%s:%s' % (lit, sport)
+                E['netloc'] = eq(netloc)
+                B.add('host.absent_ipv6_bracketed')
+            else:
+                # a bare address has no RFC 3986 authority reading without adding brackets; the server address is
+                # not a header value, so netloc and the URLs built from it are left open; host and port are not
+                E['host'] = ('hosti', [sname, '[%s]' % sname])
+                E['netloc'] = FREE
+                netloc = None
+                B.add('host.absent_ipv6_bare')
+                B.add('host.absent_ipv6_bare_default_port' if int(sport) == default_port else
+                      'host.absent_ipv6_bare_other_port')
+            E['subdomain'] = FREE
+        else:
+            E['host'] = ('hosti', [sname])
+            netloc = sname if int(sport) == default_port else '%s:%s' % (sname, sport)
+            E['netloc'] = eq(netloc)
+            labels = sname.split('.')
+            E['subdomain'] = eq(labels[0] if len(labels) > 1 else None) if all(_LDH.match(x) for x in labels) and \
+                not _is_ipv4(sname) else FREE
         B.add('host.absent')
         B.add('netloc.server_default_port' if int(sport) == default_port else 'netloc.server_other_port')
 
@@ -781,7 +829,7 @@ def expectations(case, stack):
         E['accept'] = FREE
         ranges = None
     else:
-        E['accept'] = eq(ac)
+        E['accept'] = raw('accept')
         ranges = ref_accept_ranges(ac)
         B.add('accept.modelled' if ranges is not None else 'accept.unmodelled')
 
@@ -815,5 +863,5 @@ def expectations(case, stack):
 
     # ---- case-insensitive lookup (three casings per probed name)
     for name in case.get('lookup', []):
-        E['get_header:' + name] = eq(hdr.get(name.lower()))
+        E['get_header:' + name] = raw(name.lower())
     return E, B
